@@ -136,7 +136,7 @@ def _run_grid(cfg) -> Dict[str, Any]:
         if len(viol) < 12:
             viol.append({"sig": {"class": cls, **extra}, "msg": msg})
 
-    for m in range(100):
+    for m in range(cfg.get("m0", 0), cfg.get("m1", 100)):
         for d in range(100):
             v = f"{y:04d}-{m:02d}-{d:02d}"
             cnt["strings"] += 1
@@ -1285,9 +1285,108 @@ def _run_oneread(cfg) -> Dict[str, Any]:
         viol.append({"sig": {"class": "loop-error", **scen}, "msg": f"{errors[:2]}; {where}"})
     return {"outcome": f"oneread:{chunking}:{change}", "violations": viol[:12], "counters": cnt}
 
+# ---------------------------------------------------------------------------
+# (j) the convenience entry point stdio_client_with_initialize: nothing is negotiated until the handshake completed
+# ---------------------------------------------------------------------------
+def _run_entry(cfg) -> Dict[str, Any]:
+    import anyio
+    from chuk_mcp.transports.stdio.stdio_client import stdio_client_with_initialize
+
+    preferred = None if cfg["preferred"] is None else SUPPORTED_PINNED[cfg["preferred"]]
+    answer = SUPPORTED_PINNED[cfg["answer"]]
+    kinds = cfg["batch"]
+    loop = new_loop(horizon=60)
+    q = seams.Quiescence(loop)
+    proc = seams.FakeProcess()
+    log: Dict[str, Any] = {"stdin_at_answer": None}
+    early = line_for(["b", kinds], 3)
+
+    def on_stdin(data: bytes):
+        for raw in data.split(b"\n"):
+            if not raw.strip():
+                continue
+            msg = json.loads(raw)
+            if msg.get("method") == "initialize":
+                log["offered"] = msg["params"]["protocolVersion"]
+                # the server has read `initialize`; before answering it sends a batch
+                proc.stdout.feed((json.dumps(early) + "\n").encode())
+
+                def answer_now(msg=msg):
+                    log["stdin_at_answer"] = list(proc.stdin.sends)
+                    proc.stdout.feed((json.dumps({**J, "id": msg["id"], "result": {
+                        "protocolVersion": answer, "capabilities": {}, "serverInfo": {"name": "srv", "version": "1"}}}) + "\n").encode())
+
+                loop.call_later(0.05, answer_now)
+
+    proc.on_stdin = on_stdin
+
+    async def main():
+        with seams.patched_open_process(lambda cmd, kw: proc) as pp:
+            kw = {} if preferred is None else {"preferred_version": preferred}
+            async with stdio_client_with_initialize(seams.stdio_params(), timeout=5.0, **kw) as (read, _write, init):
+                log["negotiated"] = init.protocolVersion
+                await q.settle()
+                leftover = []
+                try:
+                    while True:
+                        leftover.append(_dump(read.receive_nowait()))
+                except (anyio.WouldBlock, anyio.EndOfStream, anyio.ClosedResourceError):
+                    pass
+                log["stdin_after_handshake"] = list(proc.stdin.sends)
+                n0 = len(proc.stdin.sends)
+                late = line_for(["b", kinds], 5)
+                proc.stdout.feed((json.dumps(late) + "\n").encode())
+                await q.settle()
+                got = {"read": [], "notes": [], "stdin": list(proc.stdin.sends[n0:])}
+                try:
+                    while True:
+                        m = read.receive_nowait()
+                        got["read"].append(_dump(m) if not isinstance(m, list) else {"__python_list__": len(m)})
+                except (anyio.WouldBlock, anyio.EndOfStream, anyio.ClosedResourceError):
+                    pass
+                log["late"], log["got"] = late, got
+            log["spawned"] = len(pp.spawned)
+
+    status, val = loop.run_main(main())
+    errors = loop.collect_errors()
+    loop.abandon()
+    where = (f"stdio_client_with_initialize(preferred_version={preferred!r}); the child reads initialize, sends the batch [{kinds}], "
+             f"then answers with version {answer}; afterwards it sends the batch again")
+    viol: List[dict] = []
+    cnt: Dict[str, int] = {"sequences": 1, "steps": 2, "entry-point-scenarios": 1}
+    if status != "ok":
+        viol.append({"sig": {"class": "did-not-finish", "scenario": "stdio_client_with_initialize", "status": status},
+                     "msg": f"{status}: {val!r}; {where}"})
+        return {"outcome": "entry:" + status, "violations": viol, "counters": cnt}
+    if log.get("spawned") != 1:
+        raise core.HarnessError("seam missing: stdio_client_with_initialize did not call anyio.open_process")
+    if log.get("negotiated") != answer:
+        raise core.HarnessError(f"handshake script out of step: negotiated {log.get('negotiated')!r}, answered {answer!r}")
+    # while the handshake is in flight no version has been negotiated: the batch is a batch like any other, it is not refused
+    written = log["stdin_after_handshake"]
+    rej = [x for x in written if b'"error"' in x]
+    if rej:
+        viol.append({"sig": {"class": "accepted-batch-answered", "mode": "accepting", "scenario": "batch-while-handshake-in-flight",
+                             "preferred": "rejecting" if preferred and not ref_accepts(preferred) else "accepting-or-none"},
+                     "msg": f"the child received {len(rej)} error line(s) for a batch sent before any version was negotiated: {rej[:1]}; {where}"})
+    others = [x for x in written if b'"error"' not in x]
+    if len(others) != 2:
+        viol.append({"sig": {"class": "unexpected-stdin-traffic", "scenario": "stdio_client_with_initialize"},
+                     "msg": f"expected the initialize request and the initialized notification, the child received {written}; {where}"})
+    sub: List[dict] = []
+    judge_line(log["late"], answer, log["got"], "batch after the handshake; " + where, sub, cnt)
+    for x in sub:
+        x["sig"] = {**x["sig"], "scenario": "stdio_client_with_initialize"}
+    viol.extend(sub)
+    if errors:
+        viol.append({"sig": {"class": "loop-error", "scenario": "stdio_client_with_initialize"}, "msg": f"{errors[:2]}; {where}"})
+    return {"outcome": "entry:" + ("accepting" if ref_accepts(answer) else "rejecting"), "violations": viol[:12], "counters": cnt}
+
 
 def run_one(ctl: explorer.Ctl, cfg: Dict[str, Any]) -> Dict[str, Any]:
     part = cfg["part"]
+    if part == "entry":
+        return _run_entry(cfg)
     if part == "pending":
         return _run_pending(cfg)
     if part == "oneread":
@@ -1345,7 +1444,9 @@ def run(tier: str, only=None) -> core.Result:
 
     # (a)
     entry_years = set(range(YEARS[0], YEARS[1] + 1)) if tier == "thorough" else ({2024, 2025, 2026} | set(range(YEARS[0], YEARS[1] + 1, 10)))
-    cfgs = [{"part": "grid", "year": y, "entry": y in entry_years} for y in range(YEARS[0], YEARS[1] + 1)] + [{"part": "specials"}]
+    # four blocks per year (months 00-24, 25-49, 50-74, 75-99): the determinism audit then re-runs a third of the grid instead of all of it
+    cfgs = [{"part": "grid", "year": y, "m0": m0, "m1": m0 + 25, "entry": y in entry_years}
+            for y in range(YEARS[0], YEARS[1] + 1) for m0 in (0, 25, 50, 75)] + [{"part": "specials"}]
     out = explorer.explore(RUN, cfgs)
     sched.absorb(res, "a-decision-function-date-grid", RUN, out, cfgs)
     samples = _pick("a-decision-function-date-grid", cfgs)
@@ -1446,6 +1547,12 @@ def run(tier: str, only=None) -> core.Result:
     sched.absorb(res, "i-several-lines-in-one-read", RUN, out, ocfgs)
     samples += _pick("i-several-lines-in-one-read", ocfgs)
     sched.debug_pass(res, "i-several-lines-in-one-read", RUN, ocfgs, every=13)
+    ecfgs = [{"part": "entry", "preferred": p, "answer": a, "batch": k}
+             for p in (None, 0, 1, 2) for a in range(3) for k in ("RN", "R", "", "XN", "RXNR")]
+    out = explorer.explore(RUN, ecfgs)
+    sched.absorb(res, "j-stdio_client_with_initialize", RUN, out, ecfgs)
+    samples += _pick("j-stdio_client_with_initialize", ecfgs)
+    sched.debug_pass(res, "j-stdio_client_with_initialize", RUN, ecfgs, every=3)
     ncase = len(_switch_cases())
     cfgs = [{"part": "switch", "v0": a, "v": b, "lo": lo, "hi": min(ncase, lo + 20)}
             for a in range(len(SWITCH_V0)) for b in range(len(VERSIONS)) for lo in range(0, ncase, 20)]
@@ -1502,7 +1609,7 @@ def run(tier: str, only=None) -> core.Result:
     cov["depth"] = depth
     cov["exhaustive"] = True
     cov["rule"] = (
-        f"(a) every string dddd-dd-dd with year {YEARS[0]}..{YEARS[1]} (incl. non-calendar month/day 00..99), one block per year; the other decision entry points "
+        f"(a) every string dddd-dd-dd with year {YEARS[0]}..{YEARS[1]} (incl. non-calendar month/day 00..99), four blocks per year; the other decision entry points "
         "(both deprecated _supports_batch_processing wrappers, BatchProcessor.can_process_batch / process_message_data after construction and after "
         "update_protocol_version) must agree with the function on "
         + ("every string" if tier == "thorough" else "every string of the years 2024-2026 and of every 10th year (all years in thorough)") + ". "
@@ -1533,7 +1640,9 @@ def run(tier: str, only=None) -> core.Result:
         "read each as control): a consumer calls set_protocol_version(v) on receiving a trigger line, a batch follows later in the same read; every "
         "(initial, new) version pair x 7 layouts x 4 batches; judged only when the happens-before is witnessed (a single line lies between trigger and batch, "
         "and at the moment of the call nothing behind the trigger had been buffered, received or written) - then everything behind the trigger follows v. "
-        "A slice of every part is re-run with library logging at DEBUG. distinct_nontrivial = distinct observation digests of the blocks"
+        "(j) the entry point stdio_client_with_initialize(preferred_version in {none, each supported}) against a child that sends a batch after reading "
+        "`initialize` but before answering it (answer = each supported version) and again after the handshake: the first must not be refused (nothing is "
+        "negotiated yet), the second follows the answered version. A slice of every part is re-run with library logging at DEBUG. distinct_nontrivial = distinct observation digests of the blocks"
     )
     res.assumptions = [
         "the scripted process implements the subset of anyio.abc.Process the transport uses",
@@ -1554,6 +1663,8 @@ def run(tier: str, only=None) -> core.Result:
         "several lines in one read: a batch line is judged by the new version only if set_protocol_version() provably returned before the reader reached it "
         "(witness above); layouts where the batch directly follows the trigger are run and recorded, not judged",
         "whether a pending per-request stream itself receives its response is recorded (per_request_streams_recorded), the statement speaks about the read stream",
+        "a batch that arrives while the handshake of stdio_client_with_initialize is in flight: its members are consumed by the waiting initialize request, so only "
+        "'no -32600 line is written' is judged for it",
         "under congestion the position of the -32600 line among the application's messages is not prescribed, only its presence exactly once",
     ]
     return res
